@@ -155,6 +155,29 @@ theorem flat_scope_correct (ds : List FDecl) (hwf : ∀ d ∈ ds, d.wf) (n : Byt
   exact key ds.reverse (fun d hd => by simpa using hd)
 #print axioms flat_scope_correct
 
+/-- the resolver along a chain of scopes (innermost first): the first scope that has a match wins -/
+def modelFindChain (chain : List (List FDecl)) (n : Bytes) (line col : Int) : Option FDecl :=
+  chain.findSome? fun ds => modelFind ds n line col
+
+/-- Lua along the chain of enclosing blocks: the innermost visible declaration -/
+def specFindChain (chain : List (List FDecl)) (n : Bytes) (line col : Int) : Option FDecl :=
+  chain.findSome? fun ds => specFind ds n line col
+
+/-- **Nested scopes.** For any chain of enclosing scopes (any depth, shadowing across blocks, a
+    declaration of an outer block placed after the inner block) and any cursor outside the K1 zones of
+    the same-named declarations of those scopes, the position-based resolver returns Lua's binding. -/
+theorem chain_scope_correct (chain : List (List FDecl)) (hwf : ∀ ds ∈ chain, ∀ d ∈ ds, d.wf) (n : Bytes)
+    (line col : Int) (hk : ∀ ds ∈ chain, ∀ d ∈ ds, d.var.name = n → inK1Zone d line col = false) :
+    modelFindChain chain n line col = specFindChain chain n line col := by
+  unfold modelFindChain specFindChain
+  induction chain with
+  | nil => rfl
+  | cons ds r ih =>
+    have h1 := flat_scope_correct ds (hwf ds (by simp)) n line col (hk ds (by simp))
+    have ih' := ih (fun x hx => hwf x (by simp [hx])) (fun x hx => hk x (by simp [hx]))
+    simp only [List.findSome?_cons, h1, ih']
+#print axioms chain_scope_correct
+
 /-- The class is real: `local x = 1` / `local x = x + 1` with the cursor on the right-hand `x`:
     the resolver answers the NEW x (declared on line 2) although its scope has not begun. -/
 theorem K1_witness :
